@@ -212,6 +212,7 @@ class Task(object):
         self.pos_arg = pos_arg
         self.pos_arg_val = None  # to be set when parsing command line
         self.setup_tasks = list(setup)
+        self._check_task_names('setup', self.setup_tasks)
 
         # actions
         self.io = IOConfig(io or {})
@@ -337,8 +338,18 @@ class Task(object):
                 raise InvalidTask(msg % (self.name, dep, type(dep)))
 
 
+    def _check_task_names(self, attr, names):
+        """references to other tasks must be task names (str)"""
+        for dep in names:
+            if not isinstance(dep, str):
+                msg = ("%s. %s must be a list of task names (str). "
+                       "Got '%r' (%s)")
+                raise InvalidTask(msg % (self.name, attr, dep, type(dep)))
+
+
     def _expand_task_dep(self, task_dep):
         """convert task_dep input into actaul task_dep and wild_dep"""
+        self._check_task_names('task_dep', task_dep)
         for dep in task_dep:
             if "*" in dep:
                 self.wild_dep.append(dep)
@@ -348,6 +359,7 @@ class Task(object):
 
     def _expand_calc_dep(self, calc_dep):
         """calc_dep input"""
+        self._check_task_names('calc_dep', calc_dep)
         for dep in calc_dep:
             if dep not in self.calc_dep:
                 self.calc_dep.add(dep)
